@@ -80,7 +80,7 @@ def run(ctx):
     n_mc = len(jobs)
 
     # 2. generation: every history of a bounded length over the reduced alphabet (down-after of one and of two rounds) ...
-    bfs = [("off", 8, 3), ("off", 4, 3), ("hard", 8, 3), ("gradual", 4, 3)] if not thorough else [("off", 8, 4), ("off", 4, 4), ("hard", 8, 4), ("gradual", 8, 4), ("gradual", 4, 4)]
+    bfs = [("off", 8, 3), ("off", 4, 3), ("hard", 8, 3), ("gradual", 4, 3)] if not thorough else [("off", 8, 4), ("gradual", 4, 4), ("hard", 8, 3), ("off", 4, 3), ("gradual", 8, 3)]
     for pol, da, ln in bfs:
         p = H.hc_params(pol, "C28", mode="bfs", len=ln, downafter=da, maxtime=10 ** 6)
         jobs.append(dict(module="HealthCheck_gen", cfg_text=H.HC_GEN % p, workers=1, emit=True,
@@ -98,7 +98,7 @@ def run(ctx):
         p = dict(pl["p"], maxtime=10 ** 6)
         jobs.append(dict(module="HealthCheck_gen", cfg_text=H.HC_GEN % p, sim=pl["num"], depth=p["len"] + 1, seed=seed(),
                          label="gen round histories policy=%(policy)s downafter=%(downafter)d sbm=%(sbm)d healthsql=%(healthsql)s hasmaster=%(hasmaster)s" % p))
-    res = H.run_jobs(ctx, jobs, parallel=4)
+    res = H.run_jobs(ctx, jobs, parallel=4 if thorough else 6)
     corner = res[n_mc - 1]
     ctx.cov["tlc_counterexample_without_corner_exception"] = corner.violated
     if not corner.violated:
